@@ -21,7 +21,7 @@ def run(ctx):
         rule="every string over the alphabet {':','>','?','@','A','B','^','}','~',0x7f} of length <=%d through Graph6Decode and Sparse6Decode, bare, "
              "behind ':' and behind the optional headers; plus seeded mutations (truncate, extend, flip, change the size byte, splice a long header, "
              "randomise the data) of valid encodings; sparse6 streams enumerated at the level of the format's (b, x) pairs (EVERY sequence of at most L "
-             "pairs for n in 2..9 (17), padded with 1-bits and, for short ones, 0-bits: loops, jumps, repeated edges, x >= n); each call under recover and a 3 s watchdog. CodecTrace.tla accepts an error, or a well-formed "
+             "pairs for n in 2..9 (17), padded with 1-bits and, for short ones, 0-bits: loops, jumps, repeated edges, x >= n); every graph6 data byte combination for n = 2..5; each call under recover and a 3 s watchdog. CodecTrace.tla accepts an error, or a well-formed "
              "graph on the declared number of vertices whose re-encoding decodes to the same graph; it re-derives the declared size to confirm "
              "that exactly the strings declaring n > 4096 were skipped. Non-trivial = executed strings whose size header is complete." % (5 if ctx.thorough else 4),
         samples=['Graph6Decode("~")', 'Sparse6Decode(":A~")', 'Sparse6Decode(">>sparse6<<:B")'],
